@@ -15,6 +15,8 @@ def run(ctx, rep):
     rt.rule_writers(rep, lg['logos'], 'ws-default', ['token_start'], 'M-C03a')
     rt.rule_next_resumes(rep, lg['logos'], 'ws-default')
     rt.rule_frames(rep, lg['logos'], 'ws-default')
+    rt.rule_bump(rep, lg['logos'], 'ws-default')           # a callback's bump keeps the span inside the input (or panics)
+    rt.rule_is_boundary(rep, lg['logos'], 'ws-default')
     # a read fails only at the end of the source (otherwise the walk would stop early and the rest of the input is never tiled)
     rt.rule_read_bounds(rep, lg['logos'], 'ws-default')
     rt.rule_read_forbid(rep, ctx.mir('logos-forbid')['logos'], 'logos-forbid')
